@@ -105,3 +105,184 @@ def _(c):
         "total_input_value == sum(U[inp.output_reference].value for inp in transaction.inputs[:i])",
         "all(inp.output_reference in U for inp in transaction.inputs[:i])",
         "all(G.spend_verifies(inp, U[inp.output_reference], transaction) for inp in transaction.inputs[:i])")
+
+
+COINBASE_SHAPE = [
+    "len(transaction.inputs) == 1",
+    "transaction.inputs[0].output_reference.hash == ZERO32 and transaction.inputs[0].output_reference.index == 0",
+    "isinstance(transaction.inputs[0].signature, CoinbaseData)",
+    "len(transaction.inputs[0].signature.signature) <= 200",
+]
+
+
+@CS.contract("skepticoin.consensus.validate_coinbase_transaction_by_itself", props=["C01", "C02", "C05"])
+def _(c):
+    c.predicate("coinbase_by_itself", ["transaction"])
+    c.ensures(*COINBASE_SHAPE)
+    c.raises_only_if("not (" + " and ".join("(%s)" % x for x in COINBASE_SHAPE) + ")")
+
+
+@CS.contract("skepticoin.consensus.validate_no_duplicate_transactions", props=["C01"])
+def _(c):
+    c.local(seen_transactions=SET(BYTES))
+    c.predicate("no_dup_txs", ["transactions"])
+    c.ensures("all(all(transactions[a].hash() != transactions[b].hash() for b in range(a)) for a in range(len(transactions)))")
+    c.loop(0).invariant(
+        "all(transactions[j].hash() in seen_transactions for j in range(i))",
+        "all(all(transactions[a].hash() != transactions[b].hash() for b in range(a)) for a in range(i))")
+
+
+DISTINCT_REFS = (
+    "all(all(all(all((a2 == a and b2 == b) or transactions[a].inputs[b].output_reference != transactions[a2].inputs[b2].output_reference"
+    " for b2 in range(len(transactions[a2].inputs))) for a2 in range(%(A)s))"
+    " for b in range(len(transactions[a].inputs))) for a in range(%(A)s))")
+
+
+@CS.contract("skepticoin.consensus.validate_no_duplicate_output_references_in_transactions", props=["C01", "C13"])
+def _(c):
+    c.local(seen_output_references=SET(CLS('OutputReference')))
+    c.predicate("no_dup_refs", ["transactions"])
+    # no output is spent twice inside the list (across and within transactions)
+    c.ensures(DISTINCT_REFS % {'A': 'len(transactions)'})
+    outer = c.loop(0).index('a0')
+    outer.invariant(
+        "all(all(transactions[a].inputs[b].output_reference in seen_output_references"
+        " for b in range(len(transactions[a].inputs))) for a in range(a0))",
+        DISTINCT_REFS % {'A': 'a0'})
+    inner = c.loop(1).index('b0')
+    inner.invariant(
+        "all(all(transactions[a].inputs[b].output_reference in seen_output_references"
+        " for b in range(len(transactions[a].inputs))) for a in range(a0))",
+        DISTINCT_REFS % {'A': 'a0'},
+        "all(transactions[a0].inputs[b].output_reference in seen_output_references for b in range(b0))",
+        "all(all(b == b2 or transactions[a0].inputs[b].output_reference != transactions[a0].inputs[b2].output_reference"
+        " for b2 in range(b0)) for b in range(b0))",
+        "all(all(all(transactions[a0].inputs[b].output_reference != transactions[a].inputs[b2].output_reference"
+        " for b2 in range(len(transactions[a].inputs))) for a in range(a0)) for b in range(b0))")
+
+
+# ---------------------------------------------------------------------------------------------------- header rules (C05)
+
+@CS.contract("skepticoin.consensus.validate_proof_of_work", props=["C05"])
+def _(c):
+    c.predicate("pow_ok", ["hash", "target"])
+    c.ensures("implies(len(hash) == len(target), G.be(hash) < G.be(target))")
+    c.raises_only_if("implies(len(hash) == len(target), G.be(hash) >= G.be(target))")
+    c.assume("A-LEX")
+
+
+@CS.contract("skepticoin.consensus.validate_block_header_by_itself", props=["C05"])
+def _(c):
+    c.predicate("header_ok", ["block_header", "current_timestamp"])
+    c.ensures("implies(len(block_header.summary.target) == 32, G.be(block_header.hash()) < G.be(block_header.summary.target))",
+              "block_header.summary.timestamp <= current_timestamp + 30")
+    c.raises_only_if("len(block_header.summary.target) != 32 or G.be(block_header.hash()) >= G.be(block_header.summary.target)"
+                     " or block_header.summary.timestamp > current_timestamp + 30")
+
+
+RETARGET_SPAN = 1_209_600       # statement: "the previous target times elapsed seconds over 1,209,600"
+RETARGET_PERIOD = 10_080        # statement: "a 10,080-block period"
+
+
+@CS.contract("skepticoin.consensus.calculate_new_target", props=["C05"])
+def _(c):
+    c.summary("new_target")
+    c.let(exact="G.be(previous_target) * actual_time_passed // %d" % RETARGET_SPAN)
+    c.ensures("result == G.to_be32(min(exact, 2 ** 256 - 1))", "len(result) == 32", "exact >= 0")
+    c.raises_only_if("exact < 0")
+    c.raises(OverflowError)
+
+
+@CS.contract("skepticoin.consensus.calc_target", props=["C05"])
+def _(c):
+    c.params(previous_block=CLS('Block'))
+    c.summary("calc_target")
+    c.let(idx="coinstate.block_by_height_by_hash[previous_block.hash()]")
+    # unchanged inside a period; at a boundary computed from the block's OWN ancestors: the index stored at its parent
+    c.ensures("implies(height %% %d != 0, result == previous_block.target)" % RETARGET_PERIOD,
+              "implies(height %% %d == 0, previous_block.hash() in coinstate.block_by_height_by_hash"
+              " and (height - %d) in idx"
+              " and result == calculate_new_target(previous_block.target, current_timestamp - idx[height - %d].timestamp))"
+              % (RETARGET_PERIOD, RETARGET_PERIOD, RETARGET_PERIOD))
+
+
+@CS.contract("skepticoin.consensus.validate_block_summary_in_coinstate", props=["C05"])
+def _(c):
+    c.predicate("summary_in_state", ["block_summary", "coinstate"])
+    c.let(parent="coinstate.block_by_hash[block_summary.previous_block_hash]")
+    phi = ["block_summary.previous_block_hash in coinstate.block_by_hash",
+           "block_summary.timestamp > parent.timestamp",
+           "block_summary.target == calc_target(coinstate, parent.height + 1, block_summary.timestamp, parent)"]
+    c.ensures(*phi)
+
+
+# ---------------------------------------------------------------------------------------------------- blocks
+
+@CS.contract("skepticoin.consensus.calc_merkle_root_hash", props=["C17"])
+def _(c):
+    c.summary("merkle_of")
+    c.returns(BYTES)
+
+
+@CS.contract("skepticoin.consensus.validate_block_by_itself", props=["C01", "C02", "C05"])
+def _(c):
+    c.predicate("ok_itself", ["block", "current_timestamp"])
+    c.let(txs="block.transactions")
+    c.ensures(
+        # header rules that need no chain
+        "G.header_ok(block.header, current_timestamp)",
+        "len(txs) >= 1",
+        "len(block.serialize()) <= MAX_BLOCK_SIZE",
+        # the reward transaction has the reward shape and states the block's own height
+        "G.coinbase_by_itself(txs[0])",
+        "txs[0].inputs[0].signature.height == block.header.summary.height",
+        "0 <= block.header.summary.height <= 0xFFFFFFFF",
+        # every other transaction passes the stand-alone rules
+        "all(G.tx_by_itself(txs[1 + j]) for j in range(len(txs) - 1))",
+        "G.no_dup_txs(txs[1:])",
+        # no output is spent twice inside the block
+        "G.no_dup_refs(txs[1:])",
+        "block.header.summary.merkle_root_hash == calc_merkle_root_hash(txs)")
+    c.loop(0).invariant("all(G.tx_by_itself(txs[1 + j]) for j in range(i))")
+
+
+@CS.contract("skepticoin.consensus.validate_coinbase_transaction_in_coinstate", props=["C02", "C05"])
+def _(c):
+    c.predicate("coinbase_in_state", ["transaction", "block", "coinstate"])
+    c.let(prev="block.header.summary.previous_block_hash")
+    c.ensures(
+        "prev in coinstate.block_by_hash",
+        "prev in coinstate.unspent_transaction_outs_by_hash",
+        # height is the parent's plus one
+        "block.header.summary.height == coinstate.block_by_hash[prev].header.summary.height + 1",
+        # reward <= subsidy(height) + fees, fees taken against the PARENT's unspent set
+        "sum(o.value for o in transaction.outputs) <= "
+        "get_block_fees(block.transactions[1:], coinstate.unspent_transaction_outs_by_hash[prev])"
+        " + get_block_subsidy(block.header.summary.height)",
+        "all(all(i.output_reference in coinstate.unspent_transaction_outs_by_hash[prev] for i in t.inputs)"
+        " for t in block.transactions[1:])")
+    c.requires("block.header.summary.height >= 0")
+
+
+@CS.contract("skepticoin.consensus.construct_pow_evidence", props=["C05"])
+def _(c):
+    c.summary("pow_evidence")
+    c.trust("summarised as a function of (chain state, summary, height, transactions) here; its definition is checked "
+            "under C05 (construct_pow_evidence_after_scrypt)")
+
+
+@CS.contract("skepticoin.consensus.validate_block_in_coinstate", props=["C01", "C02", "C05", "C18"])
+def _(c):
+    c.predicate("ok_in_state", ["block", "coinstate"])
+    c.let(h="block.header.summary.height", prev="block.header.summary.previous_block_hash", txs="block.transactions")
+    c.requires("h >= 0")
+    full = "h > %d" % 163000
+    c.ensures(
+        # ---- full validation (above the checkpoint horizon)
+        "implies(%s, G.summary_in_state(block.header.summary, coinstate))" % full,
+        "implies(%s, block.header.pow_evidence.summary_hash == construct_pow_evidence(coinstate, block.header.summary, h, txs).summary_hash"
+        " and block.header.pow_evidence.chain_sample == construct_pow_evidence(coinstate, block.header.summary, h, txs).chain_sample"
+        " and block.header.pow_evidence.block_hash == construct_pow_evidence(coinstate, block.header.summary, h, txs).block_hash)" % full,
+        "implies(%s, len(txs) >= 1 and G.coinbase_in_state(txs[0], block, coinstate))" % full,
+        "implies(%s, all(G.tx_in_state(txs[1 + j], prev, coinstate) for j in range(len(txs) - 1)))" % full)
+    c.loop(0).invariant("all(G.tx_in_state(txs[1 + j], prev, coinstate) for j in range(i))")
